@@ -412,6 +412,8 @@ class Folder:
                 return v.map(lambda x: -x)
             if is_num(v):
                 return -v
+            if self.symbolic and isinstance(v, (Sym, Opaque)):
+                return Sym("neg", [v])
         if isinstance(n.op, ast.UAdd) and is_num(v):
             return v
         if isinstance(n.op, ast.Not):
